@@ -275,12 +275,25 @@ def universe():
     add("(96px: x)", ("map", [(num("96", "px"), sx)]))
     add("map-remove((a: 1), a)", ("map", []))
     add("((1, 2): x)", ("map", [(("list", [one, two], "comma", False), sx)]))
+    # maps holding null / false / empty values
+    add("(a: null)", ("map", [(sa, ("null",))]))
+    add("(a: false)", ("map", [(sa, ("bool", False))]))
+    add("(a: ())", ("map", [(sa, ("list", [], "undecided", False))]))
+    add("(a: map-remove((z: 0), z))", ("map", [(sa, ("map", []))]))
+    add("(a: null, b: 1)", ("map", [(sa, ("null",)), (sb, one)]))
+    add("(1in: null)", ("map", [(num("1", "in"), ("null",))]))
+    add("(a: (b: null))", ("map", [(sa, ("map", [(sb, ("null",))]))]))
     # argument lists
     add("a(1, 2)", ("arglist", [one, two], [], "comma"))
     add("a(1, 2, $k: 1)", ("arglist", [one, two], [("k", one)], "comma"))
     add("a()", ("arglist", [], [], "comma"))
     add("a(1)", ("arglist", [one], [], "comma"))
     add("a((1 2)..., (k: 1)...)", ("arglist", [one, two], [("k", one)], "space"))
+    add("a((1 2)...)", ("arglist", [one, two], [], "space"))
+    add("a((1, 2)...)", ("arglist", [one, two], [], "comma"))
+    add("a([1 2]...)", ("arglist", [one, two], [], "space"))
+    add("a(list.slash(1, 2)...)", ("arglist", [one, two], [], "slash"))
+    add("a(()...)", ("arglist", [], [], "comma"))
     add("(a(1, 2) 3)", ("list", [("arglist", [one, two], [], "comma"), three], "space", False))
     # null / booleans
     add("null", ("null",))
@@ -425,8 +438,13 @@ def op_pool():
                          ("(1, 2)", ("list", [num("1"), num("2")], "comma", False)),
                          ("(a b)", ("list", [("str", "a", False), ("str", "b", False)], "space", False))]
     vals = [atoms[0], atoms[1], atoms[2], atoms[16], atoms[17], ("(p: 1)", ("map", [(("str", "p", False), num("1"))])),
-            ("(1, 2)", ("list", [num("1"), num("2")], "comma", False)), ("null", ("null",))]
+            ("(1, 2)", ("list", [num("1"), num("2")], "comma", False)), ("null", ("null",)), ("null", ("null",)),
+            ("false", ("bool", False)), ("()", ("list", [], "undecided", False)),
+            ("map-remove((z: 0), z)", ("map", [])), ("0", num("0")), ('""', ("str", "", True)),
+            ("(p: null)", ("map", [(("str", "p", False), ("null",))]))]
     text[enc(("str", "p", False))] = "p"
+    text[enc(num("0"))] = "0"
+    text[enc(("str", "", True))] = '""'
     return keys, vals, text
 
 
@@ -453,7 +471,9 @@ def gen_sequence(rng, keys, vals, eqkey):
             ops.append(("merge", m))
         else:
             ops.append(("remove", rng.choice(keys)))
-    return start, ops, rng.choice(keys)
+    used = [k for k, _ in start] + [op[1] for op in ops if op[0] != "merge"] + [k for op in ops if op[0] == "merge" for k, _ in op[1]]
+    probe = rng.choice(used) if used and rng.random() < 0.75 else rng.choice(keys)
+    return start, ops, probe
 
 
 def lit_text(pairs):
@@ -473,7 +493,13 @@ REGRESSIONS = [
             ("1000.000000004ms == 1000ms", "true"), ("1000ms == 1s", "true"), ("1000.000000004ms == 1s", "true")]),
     ("K2", [("[1, 2] == a(1, 2)", "false"), ("a(1, 2) == [1, 2]", "false"), ("a(1, 2) == (1, 2)", "true"),
             ("[1, 2] == (1, 2)", "false"), ("a(1, 2, $k: 1) == (1, 2)", "true"), ("(1, 2) == a(1, 2)", "true"),
-            ("a(1, 2, $k: 1) == a(1, 2)", "true"), ("a((1 2)..., (k: 1)...) == a(1, 2)", "true")]),
+            ("a(1, 2, $k: 1) == a(1, 2)", "true"), ("a((1 2)..., (k: 1)...) == a(1, 2)", "false"),
+            ("a((1 2)...) == (1 2)", "true"), ("(1 2) == a((1 2)...)", "true"), ("a((1 2)...) == (1, 2)", "false"),
+            ("a((1 2)..., (k: 1)...) == a((1 2)...)", "true"), ("a((1, 2)...) == a(1, 2)", "true")]),
+    ("HASKEY", [("map-has-key((a: null), a)", "true"), ("map-has-key((1in: null), 96px)", "true"),
+                ("map.has-key((a: (b: null)), a, b)", "true"), ("map-has-key((a: false), a)", "true"),
+                ("map-has-key((a: ()), a)", "true"), ("inspect(map-get((a: null), a))", "null"),
+                ("map-has-key((a: null), b)", "false"), ("length(map-keys((a: null, b: null)))", "2")]),
     ("K4", [("1in == 2.54000000001cm", "false"), ("length(map-remove((1in: x), 2.54000000001cm))", "1"),
             ("(1, 2) == a(1, 2)", "true"), ("length(map-remove(((1, 2): x), a(1, 2)))", "0"),
             ("length(map-remove((1in: x), 96px))", "0")]),
@@ -552,7 +578,8 @@ def run(tier, seed):
     pairs += [(i, j) for i in range(n) for j in range(n) if (i, j) not in seen]
     bodies = [(f"e: $v{i} == $v{j}; n: $v{i} != $v{j}; g: inspect(map-get(($v{i}: 1), $v{j})); "
                f"h: map-has-key(($v{i}: 1), $v{j}); r: length(map-remove(($v{i}: 1), $v{j})); "
-               f"m: length(map-merge(($v{i}: 1), ($v{j}: 2))); x: inspect(index(($v{i},), $v{j}))")
+               f"m: length(map-merge(($v{i}: 1), ($v{j}: 2))); x: inspect(index(($v{i},), $v{j})); "
+               f"h0: map-has-key(($v{i}: null), $v{j}); k0: inspect(index(map-keys(($v{i}: null)), $v{j}))")
               for i, j in pairs]
     pres = run_batched(pool, head, bodies)
     lines = [f"value pairobs now {enc(U[i][1])} {enc(U[j][1])}" for i, j in pairs]
@@ -560,6 +587,7 @@ def run(tier, seed):
     impl_eq = [[False] * n for _ in range(n)]
     model_eq = [[False] * n for _ in range(n)]
     obs = {}
+    extra = {}
     for idx, ((i, j), mo) in enumerate(zip(pairs, mouts)):
         r = pres[idx]
         case = f"{U[i][0]}  vs  {U[j][0]}"
@@ -581,6 +609,7 @@ def run(tier, seed):
             continue
         impl_eq[i][j] = i_obs[0] == "1"
         obs[(i, j)] = (i_obs, m_obs)
+        extra[(i, j)] = (r.get("h0"), r.get("k0"))
     # map literals: pairs grass calls unequal go into batches (must not be rejected), the others one per job
     lit_pairs = [p for p in pairs if p in obs]
     uneq = [p for p in lit_pairs if not impl_eq[p[0]][p[1]]]
@@ -614,6 +643,18 @@ def run(tier, seed):
             continue
         law_lines.append("value pairlaw " + " ".join(str(x) for x in i_obs))
         law_ix.append(p)
+        # the same predicate with `map-has-key` observed on a map whose VALUE is null, and the direct law
+        # has-key(m, k) <=> some key of map-keys(m) is == k (grass's own index() over map-keys)
+        h0, k0 = extra[p]
+        o2 = list(i_obs)
+        o2[3] = b01(h0 == "true")
+        law_lines.append("value pairlaw " + " ".join(str(x) for x in o2))
+        law_ix.append(p)
+        if h0 not in ("true", "false") or (h0 == "true") != (k0 not in (None, "null")):
+            failing.append((f"x {{ h: map-has-key(({U[i][0]}: null), {U[j][0]}); k: index(map-keys(({U[i][0]}: null)), {U[j][0]}) }}",
+                            {"law": "map-has-key(m, k) <=> some key of map-keys(m) is == k", "map": f"({U[i][0]}: null)",
+                             "probe": U[j][0], "has-key": h0, "index(map-keys)": k0}, []))
+
     for p, verdict in zip(law_ix, driver(law_lines)):
         if verdict == "ok holds":
             continue
@@ -742,7 +783,8 @@ def run(tier, seed):
                 line += f" remove {enc(op[1][1])}"
             body += f"s{step}: ks($m); "
         body += (f"v: inspect($m); k: inspect(map-keys($m)); w: inspect(map-values($m)); e: ks($m); n: length($m); "
-                 f"g: inspect(map-get($m, {probe[0]})); h: map-has-key($m, {probe[0]})")
+                 f"g: inspect(map-get($m, {probe[0]})); h: map-has-key($m, {probe[0]}); "
+                 f"hk: inspect(index(map-keys($m), {probe[0]}))")
         sb.append(body)
         sl.append(line)
     sres = run_batched(pool, PRELUDE, sb, size=100)
@@ -790,8 +832,17 @@ def run(tier, seed):
         if idx % 397 == 0:
             ck.sample({"sequence": sb[idx], "impl": r.get("v"), "model": want_v})
         want_w = render(("list", [x for _, x in mtree[1]], "comma", False), ptext)
-        got = {"inspect": r.get("v"), "each": r.get("e"), "keys": r.get("k"), "values": r.get("w")}
-        want = {"inspect": want_v, "each": want_e, "keys": want_k, "values": want_w}
+        hit_vals = [x for k, x in mtree[1] if eqkey(k, probe[1])]
+        want_h = "true" if hit_vals else "false"
+        want_g = render(hit_vals[0], ptext) if hit_vals else "null"
+        ck.hist("ops:probe-" + ("hits-null" if hit_vals and hit_vals[0] == ("null",) else "hits" if hit_vals else "misses"))
+        got = {"inspect": r.get("v"), "each": r.get("e"), "keys": r.get("k"), "values": r.get("w"),
+               "has-key": r.get("h"), "get": r.get("g")}
+        want = {"inspect": want_v, "each": want_e, "keys": want_k, "values": want_w, "has-key": want_h, "get": want_g}
+        # DIRECT (no model): has-key(m, k) <=> some key of map-keys(m) is == k
+        if (r.get("h") == "true") != (r.get("hk") not in (None, "null")) or r.get("h") not in ("true", "false"):
+            failing.append((sb[idx], {"sequence": sb[idx], "law": "map-has-key(m, k) <=> some key of map-keys(m) is == k",
+                                      "has-key": r.get("h"), "index(map-keys)": r.get("hk"), "probe": probe[0]}, []))
         if got != want:
             disagree("map-ops", sb[idx], want, got)
         # DIRECT: @each, map-keys, length agree on the number of entries; the probe is found only if has-key
